@@ -140,6 +140,49 @@ func init() {
 				c2.Finish()
 			}
 		}},
+		// vesting sends (MessageSend with a schedule): new tranche, top-up with identical terms in the same block and
+		// in LATER blocks (the recipient is then read from the store, not from the per-block account cache), a
+		// different schedule while the tranche is still locked (rejected), spending locked / vested funds, fees paid by
+		// a vesting account, a tranche that has ended (cleared by the next write), a self-send
+		scenario{"vesting-sends", func(o *drv.Out, prop string) {
+			g := baseGenesis()
+			g.Validators = []GenVal{{Key: BLSKeys[0], Stake: 1000000, Committees: []uint64{1}, Output: BLSKeys[0].Addr}}
+			c, _ := NewChain(o, prop, g)
+			a, b, d := EdKeys[0], EdKeys[1], EdKeys[2]
+			fresh := []byte("vesting-recipient-01")
+			emptyBlocks(c, 1)
+			c.Mint()
+			c.SendVesting(a, 10000, fresh, 1000, 1, 2, 40) // new tranche on a fresh account
+			c.SendVesting(a, 10000, fresh, 500, 1, 2, 40)  // top-up, same block
+			c.SendVesting(a, 10000, b.Addr, 4000, 1, 3, 9) // new tranche on an existing account
+			c.End()
+			c.Mint()
+			c.SendVesting(d, 10000, fresh, 700, 1, 2, 40)   // top-up in a LATER block
+			c.SendVesting(d, 10000, fresh, 700, 1, 2, 41)   // different terms while locked: rejected
+			c.SendVesting(d, 10000, b.Addr, 250, 1, 3, 9)   // top-up in a later block, existing account
+			c.Send(b, 10000, a.Addr, 1000000000)            // b tries to spend its locked part too
+			c.Send(b, 10000, a.Addr, 999000000)             // the unlocked part is spendable
+			c.End()
+			c.Mint()
+			c.Send(a, 10000, a.Addr, 5)                     // failed tx first ...
+			c.Send(d, 0, a.Addr, 5)                         // (fee below the limit)
+			c.SendVesting(a, 10000, fresh, 11, 1, 2, 40)    // ... then a top-up in the same block
+			c.SendVesting(b, 10000, b.Addr, 100, 1, 3, 9)   // self top-up
+			c.Stake(b, 10000, BLSKeys[1], 3000, []uint64{1}, false, false, b.Addr) // a vesting account pays a stake and its fee
+			c.End()
+			for i := 0; i < 7; i++ { // past the end of b's tranche (height 9): the next write clears the fields
+				c.Mint()
+				c.Send(a, 10000, b.Addr, 1)
+				c.SendVesting(a, 10000, fresh, 3, 1, 2, 40)
+				c.End()
+			}
+			c.Mint()
+			c.SendVesting(a, 10000, b.Addr, 77, 2, 2, 3) // a schedule that is already over: new tranche, cleared at once
+			c.SendVesting(a, 10000, b.Addr, 77, 0, 0, 0) // all heights zero: a plain send
+			c.SendVesting(a, 10000, b.Addr, 77, 5, 4, 9) // cliff before start: invalid
+			c.End()
+			c.Finish()
+		}},
 	)
 }
 
